@@ -28,6 +28,14 @@ def hostile_schemas(wd):
         ("collate-unknown", "CREATE TABLE t(a COLLATE klingon PRIMARY KEY, b) WITHOUT ROWID", True),
         ("empty", "", False), ("garbage", "CREATE TABLE t(((((", False), ("index-as-table", "CREATE INDEX t ON t(a)", False),
         ("dup-rowid", "CREATE TABLE t(a INTEGER PRIMARY KEY, a INTEGER PRIMARY KEY)", False),
+        # texts that describe more (or fewer) columns than the stored records have, with the rowid alias at every position
+        ("more-cols-ipk-last", "CREATE TABLE t(a, b, c, id INTEGER PRIMARY KEY)", False),
+        ("more-cols-ipk-mid", "CREATE TABLE t(a, b, id INTEGER PRIMARY KEY, c DEFAULT 7)", False),
+        ("ipk-first", "CREATE TABLE t(id INTEGER PRIMARY KEY, a, b, c)", False),
+        ("more-cols", "CREATE TABLE t(a, b, c DEFAULT 5, d NOT NULL)", False),
+        ("fewer-cols", "CREATE TABLE t(b)", False),
+        ("more-cols-wr", "CREATE TABLE t(a, b, c, d DEFAULT 'x', PRIMARY KEY(a)) WITHOUT ROWID", True),
+        ("more-pk-wr", "CREATE TABLE t(a, b, c, id INTEGER PRIMARY KEY) WITHOUT ROWID", True),
     ]
     for name, sql, wr in defs:
         path = os.path.join(wd, "hs-%s.db" % name)
@@ -131,7 +139,9 @@ def check(run):
     cdir = os.path.join(core.VERIF, "corpus", "C05")
     generic = [("master", "master"), ("names", "names"), ("t/columns", "columns t"), ("t/select", "select t 0 a"), ("t/select_b", "select t 0 a,b"), ("t/pk", "pkselect t i5 a"),
                ("t/pk0", "pkselect t - a"), ("t/selectrowid", "selectrowid t 5 a"), ("t/iselect", "iselect t t_b a"), ("t/iselecteq", "iselecteq t t_b tv1 a"), ("scan2", "scan 2 0"), ("iscan2", "iscan 2 0"),
-               ("scan3", "scan 3 0"), ("iscan3", "iscan 3 0"), ("rowid2", "rowid 2 1")]
+               ("scan3", "scan 3 0"), ("iscan3", "iscan 3 0"), ("rowid2", "rowid 2 1"),
+               ("t/select_id", "select t 0 id"), ("t/select_more", "select t 0 c,d,id,a"), ("t/select_cid", "select t 2 c,id"), ("t/selectrowid_id", "selectrowid t 5 id,c"),
+               ("t/pk_id", "pkselect t i5 id,c"), ("t/iselect_id", "iselect t t_b id,c"), ("t/iselecteq_id", "iselecteq t t_b tv1 c,id"), ("t/select_rowid", "select t 0 rowid,id,c")]
     if os.path.isdir(cdir):
         for f in sorted(os.listdir(cdir)):
             if f.endswith(".db"):
@@ -167,10 +177,22 @@ def check(run):
             open(path, "wb").write(data)
             cases.append(("d/%d/%d" % (bi, m), path, opl, "%s: %s" % (db.desc, what)))
             dist["directed"] += 1
+    # 2c. directed corruptions of the declared payload length of spilling cells
+    dist["directed_lengths"] = 0
+    for bi, db in enumerate(bases):
+        opl = op_lines(db, dumps, bi, quick)
+        dl = mutate.directed_lengths(db.data, db.page_size)
+        if quick:
+            dl = dl[:12]
+        for m, (data, what) in enumerate(dl):
+            path = os.path.join(wd, "m-l%d-%d.db" % (bi, m))
+            open(path, "wb").write(data)
+            cases.append(("l/%d/%d" % (bi, m), path, opl, "%s: %s" % (db.desc, what)))
+            dist["directed_lengths"] += 1
     # run in batches so that a crash or a hang costs one batch; low level operations also through the model
     desc = {c[0]: c for c in cases}
     B = 40
-    want = (lambda cid: True) if not quick else (lambda cid: not cid.startswith(("m/", "d/")) or hash_even(cid))
+    want = (lambda cid: True) if not quick else (lambda cid: not cid.startswith(("m/", "d/", "l/")) or hash_even(cid))
     from concurrent.futures import ThreadPoolExecutor
     starts = list(range(0, len(cases), B))
     with ThreadPoolExecutor(max_workers=6) as ex:
